@@ -102,6 +102,16 @@ def gen(args) -> list:
             evs.append(result(ev, (lambda: ldt.with_offset(o)) if route == 0 else (lambda: OffsetDateTime(ldt, o))))
         elif c < 0.28:
             o = roff()
+            if rnd.random() < 0.5:
+                # choose the local time so that time-of-day + (new offset - old offset) lands exactly on 0h, 24h, 48h or -24h (+-1 ns)
+                delta = (o.seconds - v.offset.seconds) * 10**9
+                target = rnd.choice([0, NPD, 2 * NPD, -NPD]) + rnd.choice([-1, 0, 0, 1])
+                tod = target - delta
+                if 0 <= tod < NPD:
+                    try:
+                        v = v.with_time_adjuster(lambda _t, tod=tod: LocalTime.from_nanoseconds_since_midnight(tod))
+                    except Exception:  # noqa: BLE001
+                        pass
             evs.append(result({"op": "with_offset", "v": obs(v), "off2": o.seconds, **base}, lambda: v.with_offset(o)))
         elif c < 0.38:
             c2 = rcal()
@@ -147,7 +157,37 @@ def gen(args) -> list:
             od, ot = v.to_offset_date(), v.to_offset_time()
             evs.append({"op": "parts", "v": obs(v), "od_day": od.date._days_since_epoch, "od_off": od.offset.seconds, "od_cal": od.calendar.id,
                         "ot_t": [ot.nanosecond_of_day // 10**9, ot.nanosecond_of_day % 10**9], "ot_off": ot.offset.seconds,
-                        "recombined_at": obs(od.at(v.time_of_day)), "recombined_on": obs(ot.on(v.date)), "fixed_zone": obs(v.in_fixed_zone())})
+                        "recombined_at": obs(od.at(v.time_of_day)), "recombined_on": obs(ot.on(v.date)), "fixed_zone": obs(v.in_fixed_zone()),
+                        "fixed_zone_offset": v.in_fixed_zone().zone.get_utc_offset(v.to_instant()).seconds,
+                        "fixed_zone_plus_zero": obs(v.in_fixed_zone() + Duration.zero)})
+        elif c < 0.93:
+            from pyoda_time import ZonedClock
+            from pyoda_time.testing import FakeClock
+
+            z = rnd.choice(zones)
+            cal = rnd.choice(wide)
+            i = rinst(cal)
+            iv0 = z.get_zone_interval(i)
+            if iv0.has_end and rnd.random() < 0.7:
+                # start shortly before a transition and let the clock jump over it on every read
+                try:
+                    i = iv0.end - Duration.from_minutes(rnd.choice([1, 10, 30]))
+                except Exception:  # noqa: BLE001
+                    pass
+            adv = Duration.from_minutes(rnd.choice([0, 20, 45, 90]))
+            clock = FakeClock(i, adv)
+            zc = ZonedClock(clock, z, cal)
+            iv = z.get_zone_interval(i)
+            ev = {"op": "zoned", "inst": proj.t3_instant(i), "cal": cal.id, "zone": z.id, "route": 2,
+                  "iv": {"start": t3i(iv._raw_start), "end": t3i(iv._raw_end), "wall": iv.wall_offset.seconds}}
+            getter = rnd.choice(["get_current_offset_date_time", "get_current_zoned_date_time"])
+            try:
+                r = getattr(zc, getter)()
+                ev["res"] = obs(r)
+                ev["res_zone"] = z.id
+            except Exception as e:  # noqa: BLE001
+                ev["exc"] = type(e).__name__
+            evs.append(ev)
         else:
             z = rnd.choice(zones)
             cal = rcal()
